@@ -58,6 +58,10 @@ NPQ_KERNELS = [
     # as the position of its key (kind IDX)
     dict(name="SelfCGA_get_new_proba", file="optimizers/_selfcga.py", cls="SelfCGA", func="_get_new_proba",
          params=[("proba_dict", "DQ"), ("operator", "IDX"), ("threshold", "S1")], ret="VQ", branching=True, self_attrs=[("_K", "S1"), ("_iters", "S1")]),
+    # SelfCGA._choice_operators (C14): the operators of the next generation are the keys at the positions that random_weighted_sample (a
+    # function parameter of its three arguments) draws with the table's VALUES as weights, pop_size of them, with replacement
+    dict(name="SelfCGA_choice_operators", file="optimizers/_selfcga.py", cls="SelfCGA", func="_choice_operators", params=[("proba_dict", "DQ")], ret="VN",
+         branching=True, self_attrs=[("_pop_size", "N")], sampler="random_weighted_sample"),
     # SHAGA._randn: one Cauchy value (function parameter `cauchy loc scale <ordinal>`) clamped to [0, 1]
     dict(name="SHAGA_randn", file="optimizers/_shaga.py", cls="SHAGA", func="_randn", params=[("u", "S1"), ("scale", "S1")], ret="S1", branching=True, cauchy=True),
     # SHAGA._randc: Cauchy values are drawn until one lies in (0, 5/str_len]; the `while` becomes a fuel-bounded recursion (`none` when the
@@ -383,6 +387,24 @@ class TrQ:
             if e.id not in self.env:
                 raise NotRecognised(f"unknown name {e.id}")
             return e.id, self.env[e.id]
+        if isinstance(e, ast.Call) and is_np(e.func, "array") and len(e.args) == 1 and not e.keywords and ast.unparse(e.args[0]).startswith("list(") \
+                and ast.unparse(e.args[0]).endswith(".keys())") and self.env.get(ast.unparse(e.args[0])[5:-8]) == "DQ":
+            return f"(List.range {ast.unparse(e.args[0])[5:-8]}.length)", "KEYS"       # the keys of a table, read as their positions
+        if isinstance(e, ast.Call) and is_np(e.func, "array") and len(e.args) == 1 and [k.arg for k in e.keywords] == ["dtype"] \
+                and ast.unparse(e.keywords[0].value) == "np.float64" and ast.unparse(e.args[0]).startswith("list(") and ast.unparse(e.args[0]).endswith(".values())") \
+                and self.env.get(ast.unparse(e.args[0])[5:-10]) == "DQ":
+            return ast.unparse(e.args[0])[5:-10], "VQ"
+        if isinstance(e, ast.Call) and isinstance(e.func, ast.Name) and e.func.id == self.cfg.get("sampler") and not e.args:
+            kw = {k.arg: k.value for k in e.keywords}
+            if sorted(kw) != ["quantity", "replace", "weights"] or not isinstance(kw["replace"], ast.Constant) or not isinstance(kw["replace"].value, bool):
+                raise NotRecognised("sampler arguments")
+            (w, kw_), (q, kq) = self.E(kw["weights"]), self.E(kw["quantity"])
+            if (kw_, kq) != ("VQ", "N"):
+                raise NotRecognised("sampler operand kinds")
+            return f"(sampler {w} {q} {'true' if kw['replace'].value else 'false'})", "VN"
+        if isinstance(e, ast.Subscript) and isinstance(e.value, ast.Name) and isinstance(e.slice, ast.Name) and self.env.get(e.value.id) == "KEYS" \
+                and self.env.get(e.slice.id) == "VN":
+            return self.bind(f"NpQ.gatherN {e.value.id} {e.slice.id}"), "VN"
         # np.array(list(d.values()))  /  len(d)  /  dict(zip(d.keys(), v))  for a table d read as its value vector
         if isinstance(e, ast.Call) and is_np(e.func, "array") and len(e.args) == 1 and not e.keywords and ast.unparse(e.args[0]).startswith("list(") \
                 and ast.unparse(e.args[0]).endswith(".values())"):
@@ -782,10 +804,12 @@ class TrQM(TrQ):
         if not body or not isinstance(body[-1], ast.Return):
             raise NotRecognised("the function does not end in a return")
         self.block(body, "  ")
-        lean_k = {"VQ": "List Rat", "S1": "Rat", "DQ": "List Rat", "IDX": "Nat"}
+        lean_k = {"VQ": "List Rat", "S1": "Rat", "DQ": "List Rat", "IDX": "Nat", "N": "Nat"}
         fnp = [f"({lean} : " + " → ".join(["List Rat"] * len(names)) + " → Rat)" for lean, names in cfg.get("ext_scalar_fn", {}).values()]
         if cfg.get("cauchy"):
             fnp.append("(cauchy : Rat → Rat → Nat → Rat)")
+        if cfg.get("sampler"):
+            fnp.append("(sampler : List Rat → Nat → Bool → List Nat)")
         params = fnp + [f"(self{a} : {lean_k[k_]})" for a, k_ in cfg.get("self_attrs", [])] + [f"({p} : {lean_k[k_]})" for p, k_ in plist]
         loop_txt = ""
         if self.loop_def is not None:
@@ -797,7 +821,7 @@ class TrQM(TrQ):
             params = params + ["(fuel : Nat)"]
         return ("/- GENERATED by harness/extract/np2lean.py from src/thefittest/" + cfg["file"] + f" ({(cfg['cls'] + '.') if cfg['cls'] else ''}{cfg['func']}) — do not edit -/\n"
                 + "import TFV.Model.NpQ\nnamespace TFV.Generated.Src\nopen TFV\n\n" + loop_txt
-                + f"def {cfg['name']} " + " ".join(params) + f" : Option {'(List Rat)' if cfg['ret'] == 'VQ' else 'Rat'} := do\n" + "\n".join(self.lines) + "\n\nend TFV.Generated.Src\n")
+                + f"def {cfg['name']} " + " ".join(params) + f" : Option {'(List Rat)' if cfg['ret'] == 'VQ' else '(List Nat)' if cfg['ret'] == 'VN' else 'Rat'} := do\n" + "\n".join(self.lines) + "\n\nend TFV.Generated.Src\n")
 
 
 def translate(repo: Path, cfg: dict) -> str:
